@@ -42,6 +42,7 @@ def realX : XOps ℝ where
   atan2 y x := Complex.arg ⟨x, y⟩
   abs x := |x|
   floor x := (⌊x⌋ : ℤ)
+  floorInt x := ⌊x⌋
   nextUp x := x
   isFinite _ := true
 
